@@ -36,11 +36,16 @@ def f2j(x):
 
 def gen_seq(rng, tier):
     n = rng.choice([0, 1, 2, 3, 5, 10, 30, 64, 100, 128, 256, 300]) if tier != 'thorough' else rng.choice([0, 1, 2, 3, 10, 100, 128, 512, 1000, 1024, 3000, 4096, 10000])
-    kind = rng.choice(['offset', 'offset', 'scale', 'const', 'ints', 'centred', 'mixed', 'zeros', 'uniform', 'bigsmall', 'nonneg', 'nonpos'])
+    kind = rng.choice(['offset', 'offset', 'scale', 'const', 'ints', 'centred', 'mixed', 'zeros', 'uniform', 'bigsmall', 'nonneg', 'nonpos', 'offset_mixed'])
     if kind == 'offset':
         off = rng.choice([1e3, 1e6, -1e6, 12345.678])
         sd = rng.choice([1.0, 0.001, 1.0])
         xs = [off + sd * rng.gauss(0, 1) for _ in range(n)]
+    elif kind == 'offset_mixed':
+        # ints and floats in one sample (what a JSON parser yields), an int first, a large offset and a small spread
+        off = rng.choice([10 ** 6, -10 ** 6, 10 ** 7])
+        sd = rng.choice([0.3, 0.001, 1.0])
+        xs = [(off + rng.choice([-1, 0, 1])) if (i == 0 or rng.random() < 0.3) else off + sd * rng.gauss(0, 1) for i in range(n)]
     elif kind == 'scale':
         sc = rng.choice([1e-150, 1e-30, 1e30, 1e150])
         xs = [sc * rng.gauss(0, 1) for _ in range(n)]
@@ -152,6 +157,12 @@ def judge(op, red, km, xs, outs):
         S = (msq - s * s / m) if m else Fraction(0)
         ok = True
         exact = None
+        if isinstance(v, float) and (v != v or v in (float('inf'), float('-inf'))):
+            # a non-finite result: legitimate only where double arithmetic itself overflows on these items
+            if sabs >= Fraction(2) ** 1000 or msq >= Fraction(2) ** 1000:
+                continue
+            return ('%s(reduce=%s, key_mapper=%s) after %d items (first items %s): emitted %r although every intermediate quantity is far '
+                    'inside the range of a double' % (op, red, km, m, xs[:6], v))
         if op == 'sum':
             exact = s
             ok = v is not None and abs(Fraction(v) - exact) <= Fraction(C * max(m, 1)) * Fraction(U) * sabs
